@@ -6,34 +6,61 @@ open TTV.Content TTV.Spec.C16
 
 /-! ### the chunk loop -/
 
-theorem chunksF_flatten (n : Nat) (hn : 1 ≤ n) : ∀ (f : Nat) (rem : Bytes), rem.length < f →
-    (chunksF f n rem).flatten = rem := by
+theorem readLimit_pos {n : Nat} {caps : List Nat} (hn : 1 ≤ n) (hc : caps.all (1 ≤ ·) = true) : 1 ≤ readLimit n caps := by
+  cases caps with
+  | nil => exact hn
+  | cons k ks =>
+    simp only [List.all_cons, Bool.and_eq_true, decide_eq_true_eq] at hc
+    simp only [readLimit]; omega
+
+theorem readLimit_le (n : Nat) (caps : List Nat) : readLimit n caps ≤ n := by
+  cases caps <;> simp [readLimit]; omega
+
+theorem all_tail {caps : List Nat} (hc : caps.all (1 ≤ ·) = true) : caps.tail.all (1 ≤ ·) = true := by
+  cases caps with
+  | nil => rfl
+  | cons k ks => simp only [List.all_cons, Bool.and_eq_true] at hc; exact hc.2
+
+/-- the loop delivers everything: every non-empty read consumes at least one byte, so `rem.length + 1` reads suffice
+whatever the short-read plan -/
+theorem chunksF_flatten (n : Nat) (hn : 1 ≤ n) : ∀ (f : Nat) (caps : List Nat) (rem : Bytes),
+    caps.all (1 ≤ ·) = true → rem.length < f → (chunksF f n caps rem).flatten = rem := by
   intro f
   induction f with
-  | zero => intro rem h; omega
+  | zero => intro caps rem _ h; omega
   | succ f ih =>
-    intro rem h
+    intro caps rem hc h
     simp only [chunksF]
     cases rem with
     | nil => simp
     | cons x xs =>
-      have hne : (List.take n (x :: xs)).isEmpty = false := by
-        cases n with
+      have hl := readLimit_pos hn hc
+      have hne : (List.take (readLimit n caps) (x :: xs)).isEmpty = false := by
+        cases hk : readLimit n caps with
         | zero => omega
         | succ m => simp
       simp only [hne, Bool.false_eq_true, if_false, List.flatten_cons]
-      rw [ih _ (by simp only [List.length_drop, List.length_cons] at h ⊢; omega)]
-      exact List.take_append_drop n _
+      have hlen : 1 ≤ (List.take (readLimit n caps) (x :: xs)).length := by
+        simp only [List.length_take, List.length_cons]; omega
+      rw [ih _ _ (all_tail hc) (by simp only [List.length_drop, List.length_cons] at h ⊢; omega)]
+      have : (List.take (readLimit n caps) (x :: xs)).length = min (readLimit n caps) (x :: xs).length := List.length_take
+      rw [this]
+      by_cases hk : readLimit n caps ≤ (x :: xs).length
+      · rw [Nat.min_eq_left hk]; exact List.take_append_drop _ _
+      · have hk' : (x :: xs).length ≤ readLimit n caps := by omega
+        rw [Nat.min_eq_right hk', List.take_of_length_le hk', List.drop_length, List.append_nil]
 
-theorem chunks_flatten (n : Nat) (hn : 1 ≤ n) (rem : Bytes) : (chunks n rem).flatten = rem :=
-  chunksF_flatten n hn _ rem (Nat.lt_succ_self _)
+theorem chunks_flatten (n : Nat) (hn : 1 ≤ n) (caps : List Nat) (hc : caps.all (1 ≤ ·) = true) (rem : Bytes) :
+    (chunks n caps rem).flatten = rem :=
+  chunksF_flatten n hn _ caps rem hc (Nat.lt_succ_self _)
 
-theorem chunksF_good (n : Nat) : ∀ (f : Nat) (rem : Bytes), ∀ c ∈ chunksF f n rem, c ≠ [] ∧ c.length ≤ n := by
+theorem chunksF_good (n : Nat) : ∀ (f : Nat) (caps : List Nat) (rem : Bytes),
+    ∀ c ∈ chunksF f n caps rem, c ≠ [] ∧ c.length ≤ n := by
   intro f
   induction f with
-  | zero => intro rem c h; simp [chunksF] at h
+  | zero => intro caps rem c h; simp [chunksF] at h
   | succ f ih =>
-    intro rem c h
+    intro caps rem c h
     simp only [chunksF] at h
     split at h
     · simp at h
@@ -42,11 +69,12 @@ theorem chunksF_good (n : Nat) : ∀ (f : Nat) (rem : Bytes), ∀ c ∈ chunksF 
       rcases h with rfl | h
       · refine ⟨?_, ?_⟩
         · intro h0; simp [h0] at hne
-        · simp [List.length_take]; omega
-      · exact ih _ c h
+        · have := readLimit_le n caps
+          simp only [List.length_take]; omega
+      · exact ih _ _ c h
 
-theorem chunks_good (n : Nat) (rem : Bytes) : ∀ c ∈ chunks n rem, c ≠ [] ∧ c.length ≤ n :=
-  chunksF_good n _ rem
+theorem chunks_good (n : Nat) (caps : List Nat) (rem : Bytes) : ∀ c ∈ chunks n caps rem, c ≠ [] ∧ c.length ≤ n :=
+  chunksF_good n _ caps rem
 
 /-! ### one evaluation of `reader()` -/
 
@@ -61,9 +89,9 @@ def errEvs (i : StreamIn) (e : Exc) : List Ev :=
   (if i.isFile then [Ev.opened] else []) ++ seekEvs i ++ (if i.isFile then [Ev.closed] else []) ++ [Ev.raised e]
 
 theorem readAll_ok {i : StreamIn} {s s1 : Stream} (c : Bool) (h : seekRes i (s0 i s) = .ok s1) :
-    readAll i s c = (okEvs i (chunks i.chunkSize (s1.data.drop s1.pos)) c,
-      some (chunks i.chunkSize (s1.data.drop s1.pos)),
-      { s1 with pos := s1.pos + (chunks i.chunkSize (s1.data.drop s1.pos)).flatten.length }) := by
+    readAll i s c = (okEvs i (chunks i.chunkSize i.caps (s1.data.drop s1.pos)) c,
+      some (chunks i.chunkSize i.caps (s1.data.drop s1.pos)),
+      { s1 with pos := s1.pos + (chunks i.chunkSize i.caps (s1.data.drop s1.pos)).flatten.length }) := by
   simp only [s0] at h
   simp only [readAll, h, okEvs]
 
@@ -140,7 +168,7 @@ theorem mem_readAll {i : StreamIn} {s : Stream} {c : Bool} {e : Ev} (h : e ∈ (
     rw [readAll_ok c hs] at h
     rcases mem_okEvs h with h | ⟨x, hx, rfl, _⟩
     · exact Or.inl h
-    · exact Or.inr (Or.inl ⟨x, rfl, chunks_good _ _ x hx⟩)
+    · exact Or.inr (Or.inl ⟨x, rfl, chunks_good _ _ _ x hx⟩)
 
 theorem seek_data {f : Bool} {s s1 : Stream} {off : Int} {wh : Nat} (h : seek f s off wh = .ok s1) : s1.data = s.data := by
   unfold seek at h
@@ -303,8 +331,8 @@ def bufBody (cs : List Bytes) : List Ev := cs.map Ev.chunk ++ [Ev.done]
 
 theorem streamModel_buf_ok {i : StreamIn} {s1 : Stream} (h : i.bufferNow = true)
     (hs : seekRes i (s0 i (sInit i)) = .ok s1) :
-    streamModel i = (okEvs i (chunks i.chunkSize (s1.data.drop s1.pos)) false ++ [Ev.made])
-      ++ (List.replicate i.iters (Ev.iter :: bufBody (chunks i.chunkSize (s1.data.drop s1.pos)))).flatten := by
+    streamModel i = (okEvs i (chunks i.chunkSize i.caps (s1.data.drop s1.pos)) false ++ [Ev.made])
+      ++ (List.replicate i.iters (Ev.iter :: bufBody (chunks i.chunkSize i.caps (s1.data.drop s1.pos)))).flatten := by
   simp only [streamModel, h, if_true]
   have := readAll_ok false hs
   simp only [sInit] at this
@@ -364,7 +392,7 @@ theorem mem_streamModel {i : StreamIn} {e : Ev} (h : e ∈ streamModel i) :
       · rcases mem_bufTail h with rfl | rfl | ⟨x, hx, rfl⟩
         · exact Or.inr (Or.inl rfl)
         · exact Or.inr (Or.inr (Or.inl rfl))
-        · exact Or.inr (Or.inr (Or.inr (Or.inr (Or.inl ⟨x, rfl, chunks_good _ _ x hx⟩))))
+        · exact Or.inr (Or.inr (Or.inr (Or.inr (Or.inl ⟨x, rfl, chunks_good _ _ _ x hx⟩))))
 
 /-- clause `chunk-sizes` on the model: chunks are non-empty and at most `chunk_size` long -/
 theorem model_chunkSizes (i : StreamIn) : cChunkSizes (.stream i) (.stream (streamModel i)) = true := by
@@ -430,7 +458,7 @@ theorem model_lazy (i : StreamIn) : cLazy (.stream i) (.stream (streamModel i)) 
 
 /-! ### clause `chunk-concat` on the model -/
 
-theorem segOk_lazy_body {i : StreamIn} {s s1 : Stream} (hn : 1 ≤ i.chunkSize) (hs : seekRes i (s0 i s) = .ok s1) :
+theorem segOk_lazy_body {i : StreamIn} {s s1 : Stream} (hn : 1 ≤ i.chunkSize) (hc : i.caps.all (1 ≤ ·) = true) (hs : seekRes i (s0 i s) = .ok s1) :
     segOk (s1.data.drop s1.pos)
       ((readAll i s true).1 ++ (if (readAll i s true).2.1.isSome then [Ev.done] else [])) = true := by
   rw [readAll_ok true hs]
@@ -444,7 +472,7 @@ theorem segOk_lazy_body {i : StreamIn} {s s1 : Stream} (hn : 1 ≤ i.chunkSize) 
       · cases e <;> simp_all [ioEv, isRaised]
       · simp [isRaised]
     · simp [isRaised]
-  · simp [chunkOf, chunks_flatten _ hn]
+  · simp [chunkOf, chunks_flatten _ hn _ hc]
 
 theorem segOk_bufBody (cs : List Bytes) : segOk cs.flatten (bufBody cs) = true := by
   simp only [segOk, bufBody, Bool.and_eq_true]
@@ -459,7 +487,7 @@ theorem segOk_bufBody (cs : List Bytes) : segOk cs.flatten (bufBody cs) = true :
       | cons x xs ih => simp [List.filterMap_cons, chunkOf, ih]
     simp [List.filterMap_append, this, chunkOf]
 
-theorem lazyBodies_file {i : StreamIn} {p : Nat} (hn : 1 ≤ i.chunkSize) (hf : i.isFile = true)
+theorem lazyBodies_file {i : StreamIn} {p : Nat} (hn : 1 ≤ i.chunkSize) (hc : i.caps.all (1 ≤ ·) = true) (hf : i.isFile = true)
     (hsp : startPos i = some p) : ∀ (k : Nat) (s : Stream), s.data = dataOf i →
     (lazyBodies i k s).all (segOk ((dataOf i).drop p)) = true := by
   intro k
@@ -469,16 +497,16 @@ theorem lazyBodies_file {i : StreamIn} {p : Nat} (hn : 1 ≤ i.chunkSize) (hf : 
     intro s hd
     simp only [lazyBodies, List.all_cons, Bool.and_eq_true]
     have hs := seekRes_startPos hd (Or.inl hf) hsp
-    exact ⟨segOk_lazy_body hn hs, ih _ (by rw [readAll_data, hd])⟩
+    exact ⟨segOk_lazy_body hn hc hs, ih _ (by rw [readAll_data, hd])⟩
 
-theorem lazyBodies_first {i : StreamIn} {p : Nat} (hn : 1 ≤ i.chunkSize) (hsp : startPos i = some p)
+theorem lazyBodies_first {i : StreamIn} {p : Nat} (hn : 1 ≤ i.chunkSize) (hc : i.caps.all (1 ≤ ·) = true) (hsp : startPos i = some p)
     (k : Nat) (s : Stream) (hd : s.data = dataOf i) (hp : s.pos = i.pos0) :
     ((lazyBodies i k s).take 1).all (segOk ((dataOf i).drop p)) = true := by
   cases k with
   | zero => rfl
   | succ k =>
     simp only [lazyBodies, List.take_succ_cons, List.take_zero, List.all_cons, List.all_nil, Bool.and_true]
-    exact segOk_lazy_body hn (seekRes_startPos hd (Or.inr hp) hsp)
+    exact segOk_lazy_body hn hc (seekRes_startPos hd (Or.inr hp) hsp)
 
 theorem notIter_okEvs_made {i : StreamIn} {cs : List Bytes} : ∀ e ∈ okEvs i cs false ++ [Ev.made], isIter e = false := by
   intro e he
@@ -495,7 +523,7 @@ theorem notIter_bufBody {cs : List Bytes} : ∀ e ∈ bufBody cs, isIter e = fal
   rcases he with ⟨x, _, rfl⟩ | rfl <;> rfl
 
 /-- clause `chunk-concat` on the model: the chunks concatenate to the bytes from the seek position to EOF -/
-theorem model_chunkConcat (i : StreamIn) (hn : 1 ≤ i.chunkSize) :
+theorem model_chunkConcat (i : StreamIn) (hn : 1 ≤ i.chunkSize) (hc : i.caps.all (1 ≤ ·) = true) :
     cChunkConcat (.stream i) (.stream (streamModel i)) = true := by
   simp only [cChunkConcat, expected]
   cases hsp : startPos i with
@@ -513,8 +541,8 @@ theorem model_chunkConcat (i : StreamIn) (hn : 1 ≤ i.chunkSize) :
       rw [segs_replicate _ notIter_bufBody _ _ notIter_okEvs_made]
       simp only [List.drop_succ_cons, List.drop_zero, List.all_eq_true, List.mem_replicate]
       rintro seg ⟨_, rfl⟩
-      have := segOk_bufBody (chunks i.chunkSize ((dataOf i).drop p))
-      rw [chunks_flatten _ hn] at this
+      have := segOk_bufBody (chunks i.chunkSize i.caps ((dataOf i).drop p))
+      rw [chunks_flatten _ hn _ hc] at this
       exact this
     | false =>
       have hd : (⟨i.data1.getD i.data0, i.pos0⟩ : Stream).data = dataOf i := by simp [dataOf, hb]
@@ -525,7 +553,7 @@ theorem model_chunkConcat (i : StreamIn) (hn : 1 ≤ i.chunkSize) :
       rw [hsegs]
       simp only [List.drop_succ_cons, List.drop_zero]
       cases hf : i.isFile with
-      | true => simpa using lazyBodies_file hn hf hsp _ _ hd
-      | false => simpa using lazyBodies_first hn hsp _ _ hd rfl
+      | true => simpa using lazyBodies_file hn hc hf hsp _ _ hd
+      | false => simpa using lazyBodies_first hn hc hsp _ _ hd rfl
 
 end TTV.Lemmas.ContentStream
